@@ -25,6 +25,7 @@ package main
 // In /repo/jsonschema/contracts_verif.go every line is prefixed by "//@ ".
 
 import (
+	"regexp"
 	"fmt"
 	"strings"
 	"unicode"
@@ -480,6 +481,27 @@ type Clause struct {
 	Name string // optional label
 	Line int
 	Used bool
+	// "label uses a,b: expr": only the labelled invariant clauses a, b (and this clause itself) are hypotheses
+	HasUses bool
+	Uses    []string
+}
+
+var usesRe = regexp.MustCompile(`^(\w+)\s+uses\s*([\w,\s]*):\s`)
+
+// splitLabel parses an optional "label:" or "label uses a,b:" prefix.
+func splitLabel(rest string) (label string, hasUses bool, uses []string, body string) {
+	if m := usesRe.FindStringSubmatch(rest); m != nil {
+		for _, u := range strings.Split(m[2], ",") {
+			if u = strings.TrimSpace(u); u != "" {
+				uses = append(uses, u)
+			}
+		}
+		return m[1], true, uses, strings.TrimSpace(rest[len(m[0]):])
+	}
+	if i := strings.Index(rest, ": "); i > 0 && isIdentLike(rest[:i]) {
+		return rest[:i], false, nil, strings.TrimSpace(rest[i+1:])
+	}
+	return "", false, nil, rest
 }
 
 type LoopSpec struct {
@@ -501,6 +523,8 @@ type Contract struct {
 	Params   []string
 	Requires []*Clause
 	Ensures  []*Clause
+	Reveal   []string  // opaque axioms available when verifying this function
+	AtReturn []*Clause // like ensures, but the function's locals are in scope; checked at returns, never assumed by callers
 	Lets     []struct {
 		Name string
 		E    Node
@@ -545,6 +569,7 @@ type Axiom struct {
 	Name string
 	E    Node
 	Src  string
+	Opaque bool // included only in the verification of functions whose contract says "reveal <name>"
 }
 
 type SpecFile struct {
@@ -673,7 +698,7 @@ func parseSpecFile(src, prefix, file string, assumed bool) (*SpecFile, error) {
 			}
 			sf.Trusted = append(sf.Trusted, t)
 			cur = nil
-		case "axiom":
+		case "axiom", "opaqueaxiom":
 			i := strings.Index(rest, ":")
 			if i < 0 {
 				return nil, fail(fmt.Errorf("axiom needs name:"))
@@ -682,7 +707,7 @@ func parseSpecFile(src, prefix, file string, assumed bool) (*SpecFile, error) {
 			if err != nil {
 				return nil, fail(err)
 			}
-			sf.Axioms = append(sf.Axioms, &Axiom{strings.TrimSpace(rest[:i]), e, rest[i+1:]})
+			sf.Axioms = append(sf.Axioms, &Axiom{Name: strings.TrimSpace(rest[:i]), E: e, Src: rest[i+1:], Opaque: kwBase == "opaqueaxiom"})
 			cur = nil
 		case "contract":
 			c := &Contract{Assumed: assumed, Line: ll.L, File: file}
@@ -706,38 +731,31 @@ func parseSpecFile(src, prefix, file string, assumed bool) (*SpecFile, error) {
 			if cur == nil {
 				return nil, fail(fmt.Errorf("loopinv outside contract"))
 			}
-			label := ""
-			if i := strings.Index(rest, ": "); i > 0 && isIdentLike(rest[:i]) {
-				label = rest[:i]
-				rest = strings.TrimSpace(rest[i+1:])
-			}
+			label, hasUses, uses, rest := splitLabel(rest)
 			e, err := parseExpr(rest)
 			if err != nil {
 				return nil, fail(err)
 			}
-			cur.LoopInvs = append(cur.LoopInvs, &Clause{Kind: "invariant", Tags: tags, Src: rest, E: e, Name: label, Line: ll.L})
+			cur.LoopInvs = append(cur.LoopInvs, &Clause{Kind: "invariant", Tags: tags, Src: rest, E: e, Name: label, Line: ll.L, HasUses: hasUses, Uses: uses})
 			curLoop = nil
-		case "requires", "ensures", "invariant", "decreases":
+		case "requires", "ensures", "atreturn", "invariant", "decreases":
 			if cur == nil {
 				return nil, fail(fmt.Errorf("%s outside contract", kwBase))
 			}
-			label := ""
-			// optional label:  ensures name: expr   (name is an identifier followed by ": " and not "::")
-			if i := strings.Index(rest, ": "); i > 0 && isIdentLike(rest[:i]) {
-				label = rest[:i]
-				rest = strings.TrimSpace(rest[i+1:])
-			}
+			label, hasUses, uses, rest := splitLabel(rest)
 			e, err := parseExpr(rest)
 			if err != nil {
 				return nil, fail(err)
 			}
-			cl := &Clause{Kind: kwBase, Tags: tags, Src: rest, E: e, Name: label, Line: ll.L}
+			cl := &Clause{Kind: kwBase, Tags: tags, Src: rest, E: e, Name: label, Line: ll.L, HasUses: hasUses, Uses: uses}
 			switch kwBase {
 			case "requires":
 				cur.PreOrder = append(cur.PreOrder, len(cur.Requires))
 				cur.Requires = append(cur.Requires, cl)
 			case "ensures":
 				cur.Ensures = append(cur.Ensures, cl)
+			case "atreturn":
+				cur.AtReturn = append(cur.AtReturn, cl)
 			case "invariant":
 				if curLoop == nil {
 					return nil, fail(fmt.Errorf("invariant outside loop"))
@@ -783,6 +801,15 @@ func parseSpecFile(src, prefix, file string, assumed bool) (*SpecFile, error) {
 				return nil, fail(fmt.Errorf("pure outside contract"))
 			}
 			cur.HasMod = true
+		case "reveal":
+			if cur == nil {
+				return nil, fail(fmt.Errorf("reveal outside contract"))
+			}
+			for _, n := range strings.Split(rest, ",") {
+				if n = strings.TrimSpace(n); n != "" {
+					cur.Reveal = append(cur.Reveal, n)
+				}
+			}
 		case "opaque":
 			cur.Opaque = true
 		case "fresh":
@@ -808,16 +835,12 @@ func parseSpecFile(src, prefix, file string, assumed bool) (*SpecFile, error) {
 			if curLoop == nil {
 				return nil, fail(fmt.Errorf("exit outside loop"))
 			}
-			label := ""
-			if i := strings.Index(rest, ": "); i > 0 && isIdentLike(rest[:i]) {
-				label = rest[:i]
-				rest = strings.TrimSpace(rest[i+1:])
-			}
+			label, hasUses, uses, rest := splitLabel(rest)
 			e, err := parseExpr(rest)
 			if err != nil {
 				return nil, fail(err)
 			}
-			curLoop.Exits = append(curLoop.Exits, &Clause{Kind: "exit", Tags: tags, Src: rest, E: e, Name: label, Line: ll.L})
+			curLoop.Exits = append(curLoop.Exits, &Clause{Kind: "exit", Tags: tags, Src: rest, E: e, Name: label, Line: ll.L, HasUses: hasUses, Uses: uses})
 		case "noreads":
 			// noreads Schema: Title, Description, ...
 			i := strings.Index(rest, ":")
